@@ -882,7 +882,15 @@ func callBuiltin(caller *frame, callpos token.Pos, fn *ssa.Builtin, args []value
 			return arg0
 		}
 		// append([]T, ...[]T) []T
-		return append(args[0].([]value), args[1].([]value)...)
+		src := args[1].([]value)
+		if len(src) > 0 && isAggregate(src[0]) {
+			cp := make([]value, len(src))
+			for k := range src {
+				cp[k] = cloneValue(src[k])
+			}
+			src = cp
+		}
+		return append(args[0].([]value), src...)
 
 	case "copy": // copy([]T, []T) int or copy([]byte, string) int
 		src := args[1]
@@ -890,7 +898,20 @@ func callBuiltin(caller *frame, callpos token.Pos, fn *ssa.Builtin, args []value
 			params := fn.Type().(*types.Signature).Params()
 			src = conv(params.At(0).Type(), params.At(1).Type(), src)
 		}
-		return copy(args[0].([]value), src.([]value))
+		dst, srcv := args[0].([]value), src.([]value)
+		if len(srcv) > 0 && len(dst) > 0 && isAggregate(srcv[0]) {
+			// element-wise deep copy (memmove semantics for overlapping slices)
+			n := len(dst)
+			if len(srcv) < n {
+				n = len(srcv)
+			}
+			tmp := make([]value, n)
+			for k := 0; k < n; k++ {
+				tmp[k] = cloneValue(srcv[k])
+			}
+			return copy(dst, tmp)
+		}
+		return copy(dst, srcv)
 
 	case "delete": // delete(map[K]value, K)
 		args[0].(*omap).delete(caller.i, args[1])
@@ -1395,4 +1416,32 @@ func fandbits[F floaty](x, y F) F {
 		*(*uint64)(unsafe.Pointer(&x)) &= *(*uint64)(unsafe.Pointer(&y))
 	}
 	return x
+}
+
+func isAggregate(v value) bool {
+	switch v.(type) {
+	case structure, array:
+		return true
+	}
+	return false
+}
+
+// cloneValue deep-copies struct and array values (which are reference types in
+// the interpreter but value types in Go).
+func cloneValue(v value) value {
+	switch v := v.(type) {
+	case structure:
+		c := make(structure, len(v))
+		for k := range v {
+			c[k] = cloneValue(v[k])
+		}
+		return c
+	case array:
+		c := make(array, len(v))
+		for k := range v {
+			c[k] = cloneValue(v[k])
+		}
+		return c
+	}
+	return v
 }
